@@ -159,6 +159,8 @@ type c34Net struct {
 	count  [2]int
 	held   [2][]*c34Held
 	closed bool
+	// blackhole: every datagram from now on is lost (part "aborts" only)
+	blackhole bool
 }
 
 type c34Held struct {
@@ -181,6 +183,9 @@ func (p *c34PC) WriteTo(b []byte, addr net.Addr) (int, error) {
 	idx := n.count[p.dir]
 	n.count[p.dir]++
 	kind := ""
+	if n.blackhole {
+		kind = "drop"
+	}
 	for i, f := range n.plan {
 		if f.Dir == p.dir && f.Index == idx && !n.used[i] {
 			n.used[i] = true
@@ -729,8 +734,9 @@ func c34MismatchChunk(n int) int {
 
 func TestVerif_C34(t *testing.T) {
 	vx.Run(t, "C34", func(c *vx.Ctx) {
-		c.Rule("default runs: every message shape = {GET without body, POST x request body in {0,1,10,63,64,65,1000,16383,16384,16385,20000,32768} bytes x declared/undeclared Content-Length x chunking {all at once = one Write = one DATA frame, 1 byte (small bodies), 300, 1000, 16384 (the 32768-byte body)} x request trailers {none, 2}} x response {status/header set 2, body as for the request (1-byte chunks up to 1000 bytes), trailers {none, 2}} x request header set 2 (quick: the full cross product of request-body and response-body variants with the other dimensions paired; thorough: the full product), plus Content-Length mismatches (declared n, n-1 / n+1 bytes produced, n in {1,10,1000}) on the request and on the response; frame-length boundaries: the body sizes b-1, b, b+1 written at once put one DATA frame of each direction on either side of every boundary b of the frame-length varint that is reachable (2^6 and 2^14), and part header-blocks does the same for the four HEADERS frames (request header, request trailers, response header, response trailers): one extra field whose raw-encoded value has every length L in [b-1-110, b+1-8] (b = 64: 1..57), which makes the encoded field section K+L bytes long with 8 <= K <= 110 constant per window, hence b-1, b and b+1 bytes for three of them (quick: minimal shapes, both boundaries; thorough: also a POST with bodies and trailers in both directions at 2^14); fault runs: for selected shapes (quick 9, thorough 116; one of them carries one 16384-byte DATA frame each way) first a default run that counts the datagrams of each direction, then every placement of 1 deviation (thorough, and quick for the two smallest shapes: 2 deviations) from {drop, duplicate, hold back past the next 1 / 3 datagrams} on every datagram index of either direction, handshake included. Each run is a real clientConn.RoundTrip against the real server over two real QUIC endpoints in a synctest bubble; non-trivial = the exchange ran, every planned deviation hit a datagram, and handler-side request and client-side response were compared field by field with what was sent")
-		c.Assume("network deviations are limited to <= 2 per exchange from {drop, duplicate, reorder past 1 or 3 datagrams}; corruption, partitions and address changes are not enumerated here (QUIC-level coverage: C19)")
+		c.Rule("default runs: every message shape = {GET without body, POST x request body in {0,1,10,63,64,65,1000,16383,16384,16385,20000,32768} bytes x declared/undeclared Content-Length x chunking {all at once = one Write = one DATA frame, 1 byte (small bodies), 300, 1000, 16384 (the 32768-byte body)} x request trailers {none, 2}} x response {status/header set 2, body as for the request (1-byte chunks up to 1000 bytes), trailers {none, 2}} x request header set 2 (quick: the full cross product of request-body and response-body variants with the other dimensions paired; thorough: the full product), plus Content-Length mismatches (declared n, n-1 / n+1 bytes produced, n in {1,10,1000}) on the request and on the response; frame-length boundaries: the body sizes b-1, b, b+1 written at once put one DATA frame of each direction on either side of every boundary b of the frame-length varint that is reachable (2^6 and 2^14), and part header-blocks does the same for the four HEADERS frames (request header, request trailers, response header, response trailers): one extra field whose raw-encoded value has every length L in [b-1-110, b+1-8] (b = 64: 1..57), which makes the encoded field section K+L bytes long with 8 <= K <= 110 constant per window, hence b-1, b and b+1 bytes for three of them (quick: minimal shapes, both boundaries; thorough: also a POST with bodies and trailers in both directions at 2^14); fault runs: for selected shapes (quick 9, thorough 116; one of them carries one 16384-byte DATA frame each way) first a default run that counts the datagrams of each direction, then every placement of 1 deviation (thorough, and quick for the two smallest shapes: 2 deviations) from {drop, duplicate, hold back past the next 1 / 3 datagrams} on every datagram index of either direction, handshake included. part aborts (bodies cut off in mid-transfer): the sender of a body sets out to send 3 (thorough 4) chunks of {1, 700 (thorough: also 5000)} bytes, one flushed DATA frame each, with / without declared Content-Length (thorough: with / without announced trailers), and after k = 0..chunks-1 chunks an abort event ends the transfer - request body: {the body source's Read fails (with a 1 s pause after every chunk, and without any pause), the request context is cancelled, the server is shut down with an expired grace period, the network turns into a black hole until the idle timeout}, response body: {the request context is cancelled while the handler is still producing, server shutdown, black hole}; with the pause every datagram has arrived and the reader (io.ReadAll of Request.Body in the handler / of Response.Body in the client) has consumed every frame sent so far, i.e. waits between two DATA frames for the next frame header when the event strikes; oracle: what the reader got is a prefix of the body and it ends with a read error (or RoundTrip failed / the handler never ran) - a proper prefix followed by a clean EOF is a silently truncated body; non-trivial there = the event happened and (paused cases) the reader had read exactly the k chunks sent. Each run is a real clientConn.RoundTrip against the real server over two real QUIC endpoints in a synctest bubble; non-trivial = the exchange ran, every planned deviation hit a datagram, and handler-side request and client-side response were compared field by field with what was sent")
+		c.Assume("network deviations are limited to <= 2 per exchange from {drop, duplicate, reorder past 1 or 3 datagrams}; corruption, temporary partitions and address changes are not enumerated here (QUIC-level coverage: C19); the only partition is the permanent black hole of part aborts")
+		c.Assume("part aborts: the abort events are the harness's own (body source error, context cancellation, server.shutdown with an expired context, total datagram loss); a handler panic is not among them (the server does not recover handler panics), nor is an abort that strikes while the reader is in the middle of a DATA frame placed deliberately; the reader is io.ReadAll (reads until error); abort events are not combined with datagram deviations")
 		c.Assume("only the header fields the harness sets are compared (the transport adds User-Agent / Accept-Encoding, the server adds Date); Request.ContentLength is compared only when a Content-Length was declared")
 		c.Assume("response declared Content-Length n with n+1 bytes written: the server trims the write, so the wire is consistent; accepted iff the client sees exactly the first n bytes AND the handler's Write returned an error")
 		c.Assume("frame lengths: DATA frames of one Write are at most 32768 bytes on the request side (io.Copy buffer) and 32768 here on the response side; the 2^30 varint boundary (one 1 GiB Write or field section) is out of reach and not covered; lengths on control streams (SETTINGS, GOAWAY) are not varied")
@@ -807,6 +813,9 @@ func TestVerif_C34(t *testing.T) {
 				}
 			}
 		}, c34Check)
+
+		// ---- bodies cut off in mid-transfer (c34_abort_test.go)
+		c34AbortPart(c)
 
 		// ---- fault enumeration
 		small := []c34Shape{
